@@ -105,6 +105,9 @@ end LS
 def chk (t : LT) (i : Nat) : LR Unit :=
   if i < t.cap then pure () else if t.cap = 0 then stop .nullDeref else stop .oob
 
+/-- a dereference of a node pointer that was loaded from memory -/
+def chkN (a : Nat) : LR Unit := if a = 0 then stop .nullDeref else pure ()
+
 section
 variable (hf : HashId → Nat → Nat → Nat)
 
@@ -187,14 +190,18 @@ def keyed (fuel : Nat) (s : LS) (k : Nat) : LR (LS × Nat) := do
     pure (s3, j)
   else pure (s, i)
 
+/-- the part of `cstl_hash_insert(h, k, e)` after the keyed lookup returned `&h->bucket.at[bk]` -/
+def insertTail (s : LS) (bk k e : Nat) : LR LS := do
+  let s1 := s.setKey e k                       -- hn->key = k
+  chk s1.t bk
+  let s2 := s1.setNxt e (s1.t.head bk)         -- hn->next = bk->n
+  let s3 := s2.setHead bk e                    -- bk->n = hn
+  pure (s3.setSize (s3.t.size + 1))            -- h->count++
+
 /-- `cstl_hash_insert(h, k, e)` -/
 def insert (fuel : Nat) (s : LS) (k e : Nat) : LR LS := do
   let r ← keyed hf fuel s k
-  let s1 := r.1.setKey e k                     -- hn->key = k
-  chk s1.t r.2
-  let s2 := s1.setNxt e (s1.t.head r.2)        -- hn->next = bk->n
-  let s3 := s2.setHead r.2 e                   -- bk->n = hn
-  pure (s3.setSize (s3.t.size + 1))            -- h->count++
+  insertTail r.1 r.2 k e
 
 /-- `cstl_hash_bucket_foreach(h, n, visit, p)`: the successor is read before the
 visit; the visit function gets the memory, its private data and the node and
@@ -258,17 +265,21 @@ def eraseVisit (s : LS) (p : EraseP) (e : Nat) : LR (LS × EraseP × Int) :=
   if p.e = e then pure (s, p, 1)
   else pure (s, { p with n := .next (s.rdLoc p.n) }, 0)
 
-/-- `cstl_hash_erase(h, e)` -/
-def erase (fuel : Nat) (s : LS) (e : Nat) : LR LS := do
-  let r ← keyed hf fuel s (s.keyOf e)
-  chk r.1.t r.2
-  let w ← bucketForeach eraseVisit fuel r.1 { n := .head r.2, e := e } (r.1.t.head r.2)
+/-- the part of `cstl_hash_erase(h, e)` after the keyed lookup returned `&h->bucket.at[bk]` -/
+def eraseTail (fuel : Nat) (s : LS) (bk e : Nat) : LR LS := do
+  chk s.t bk
+  let w ← bucketForeach eraseVisit fuel s { n := .head bk, e := e } (s.t.head bk)
   if w.2.2 ≠ 0 then
     if w.1.rdLoc w.2.1.n = 0 then stop .nullDeref
     else
       let s2 := w.1.wrLoc w.2.1.n (w.1.nxt (w.1.rdLoc w.2.1.n))     -- *hep.n = (*hep.n)->next
       pure (s2.setSize (s2.t.size - 1))                              -- h->count--
   else pure w.1
+
+/-- `cstl_hash_erase(h, e)` -/
+def erase (fuel : Nat) (s : LS) (e : Nat) : LR LS := do
+  let r ← keyed hf fuel s (s.keyOf e)
+  eraseTail fuel r.1 r.2 e
 
 /-- what a successful `realloc` to `sz` buckets does to the array (cf. `Cstl.Hash.resizeArr`) -/
 def LS.realloc (s : LS) (sz : Nat) : LS :=
